@@ -33,6 +33,10 @@ pub struct Transaction<SP: StorageProvider, PS> {
     perspective: Option<SP::Perspective>,
     /// Head of the current perspective
     phead: Option<CmdId>,
+    /// Number of commands accepted into the current perspective
+    pcount: usize,
+    /// Heads the current perspective builds on; they stop being heads once it is written
+    superseded: Prior<CmdId>,
     /// Written but not committed heads
     heads: BTreeMap<CmdId, Location>,
     /// Tag for associated policy store
@@ -46,6 +50,8 @@ impl<SP: StorageProvider, PS> Transaction<SP, PS> {
             original_heads_offset: None,
             perspective: None,
             phead: None,
+            pcount: 0,
+            superseded: Prior::None,
             heads: BTreeMap::new(),
             policy_store: PhantomData,
         }
@@ -89,7 +95,18 @@ impl<SP: StorageProvider, PS: PolicyStore> Transaction<SP, PS> {
     pub fn flush(&mut self, storage: &mut SP::Storage) -> Result<(), ClientError> {
         if let Some(p) = Option::take(&mut self.perspective) {
             self.phead = None;
+            let superseded = mem::replace(&mut self.superseded, Prior::None);
+            if mem::take(&mut self.pcount) == 0 {
+                // Every command offered to this perspective was rejected: there is
+                // nothing to write and the heads it was opened on are still heads.
+                return Ok(());
+            }
             let segment = storage.write(p)?;
+            // The parents stay in `heads` until now so that commands reachable only
+            // through them can still be located while the perspective is in flight.
+            for id in superseded {
+                self.heads.remove(&id);
+            }
             self.heads
                 .insert(segment.head_id(), segment.head_location()?);
         }
@@ -298,6 +315,7 @@ impl<SP: StorageProvider, PS: PolicyStore> Transaction<SP, PS> {
         sink.commit();
 
         self.phead = Some(command.id());
+        self.pcount = self.pcount.checked_add(1).assume("must not overflow")?;
 
         Ok(())
     }
@@ -318,10 +336,7 @@ impl<SP: StorageProvider, PS: PolicyStore> Transaction<SP, PS> {
         MS: Fn() -> Result<F, StorageError>,
     {
         // Must always start a new perspective for merges.
-        if let Some(p) = Option::take(&mut self.perspective) {
-            let seg = storage.write(p)?;
-            self.heads.insert(seg.head_id(), seg.head_location()?);
-        }
+        self.flush(storage)?;
 
         let left_loc = self
             .locate(storage, left, &mut buffers.traversal.primary)?
@@ -352,12 +367,13 @@ impl<SP: StorageProvider, PS: PolicyStore> Transaction<SP, PS> {
         )?;
         perspective.add_command(command)?;
 
-        // These are no longer heads of the transaction, since they are both covered by the merge
-        self.heads.remove(&left.id);
-        self.heads.remove(&right.id);
+        // These are no longer heads of the transaction once the merge is written,
+        // since they are both covered by it.
+        self.superseded = Prior::Merge(left.id, right.id);
 
         self.perspective = Some(perspective);
         self.phead = Some(command.id());
+        self.pcount = 1;
 
         Ok(true)
     }
@@ -381,11 +397,7 @@ impl<SP: StorageProvider, PS: PolicyStore> Transaction<SP, PS> {
         }
 
         // Write out the current perspective.
-        if let Some(p) = Option::take(&mut self.perspective) {
-            self.phead = None;
-            let seg = storage.write(p)?;
-            self.heads.insert(seg.head_id(), seg.head_location()?);
-        }
+        self.flush(storage)?;
 
         let loc = self
             .locate(storage, parent, buffer)?
@@ -397,7 +409,7 @@ impl<SP: StorageProvider, PS: PolicyStore> Transaction<SP, PS> {
             .insert(storage.get_linear_perspective(loc)?);
 
         self.phead = Some(parent.id);
-        self.heads.remove(&parent.id);
+        self.superseded = Prior::Single(parent.id);
 
         Ok(p)
     }
